@@ -34,11 +34,15 @@ def cases(tier, seed):
         for (pn, pat) in pats:
             for H in dating.H_menu(a, tier):
                 out.append({"arg": a, "mut": pat, "H": H, "above_root": int(pn in ("mod3", "ones"))})
+            if a["nn"] - a["n"] > 1:
+                # node-numbering decorator: non-sample ids in decreasing-age order (as tsinfer numbers them) / rotated
+                for rn in (("reverse",) if tier == "quick" else ("reverse", "rotate")):
+                    out.append({"arg": a, "mut": pat, "H": {"kind": "cont"}, "above_root": int(pn in ("mod3", "ones")), "renumber": rn})
     return {
         "cases": out,
         "states": sp.states,
         "transitions": sp.transitions,
-        "bound": f"{sp.describe()} x mutation menu(+above-root) x H x 3 methods x set_metadata x options",
+        "bound": f"{sp.describe()} x mutation menu(+above-root) x H x node numbering (time order, reversed, rotated) x 3 methods x set_metadata x options",
         "exhaustive": True,
     }
 
@@ -120,5 +124,5 @@ def run(case):
         if np.any(np.isnan(mn)):
             bad("no_time_metadata_written", "some node rows lack mn although the table had neither schema nor metadata")
         elif np.any(~is_sample):
-            keys.append(f"{case['arg']['id']}|{case['mut']}|{case['H']}|{method}|{kw}")
+            keys.append(f"{case['arg']['id']}|{case['mut']}|{case['H']}|{case.get('renumber')}|{method}|{kw}")
     return {"evals": evals, "viol": viol, "tags": tags, "keys": keys}
